@@ -153,10 +153,19 @@ SplCases(a) ==
             E |-> WeightedVal(w, a, b), S |-> WeightedAbs(w, a, b)] :
              n \in 1..6, w \in Weights, b \in {x \in BigSplsOn(g) : x.c # <<>> /\ x.c = FrC(Len(x.c), x.o, 0)}})
 
-Init == \/ \E k \in FpKnots : st = [ph |-> 0, kind |-> "k", k |-> k]
+\* grid construction from special floating-point values (C11): every sequence of
+\* length <= 4 over {0, 1, 2, NaN} (+/-Inf and -0.0 in the thorough tier)
+XN(n) == <<0, n, 1>>
+Specials == {XN(0), XN(1), XN(2), <<1, 0, 1>>} \cup (IF Thorough THEN {<<2, 0, 1>>, <<3, 0, 1>>, <<4, 0, 1>>} ELSE {})
+XSeqs == UNION {[1..L -> Specials] : L \in 0..4}
+GridSpecialCases == {[op |-> "FpGridNew", pts |-> s] : s \in XSeqs}
+
+Init == \/ st = [ph |-> 0, kind |-> "x"]
+        \/ \E k \in FpKnots : st = [ph |-> 0, kind |-> "k", k |-> k]
         \/ \E g \in FpGrids : \E a \in SplsOn(g) : st = [ph |-> 0, kind |-> "a", a |-> a]
 Next == /\ st.ph = 0
-        /\ \E c \in (IF st.kind = "k" THEN GenCases(st.k) ELSE SplCases(st.a)) : st' = [ph |-> 1, c |-> c]
+        /\ \E c \in (IF st.kind = "k" THEN GenCases(st.k) ELSE IF st.kind = "x" THEN GridSpecialCases ELSE SplCases(st.a)) :
+              st' = [ph |-> 1, c |-> c]
 Spec == Init /\ [][Next]_st
 Emit == (st'.ph = 1) => CSVWrite("%1$s", <<ToJson(st'.c)>>, OutFile)
 
@@ -172,4 +181,5 @@ MagnitudeOK == st.ph = 1 =>
     [] c.op = "FpApply" -> DomSpl(c.E.app, c.S.app) /\ RLe(RAbs(c.E.lf), c.S.lf)
     [] c.op = "FpBF" -> RLe(RAbs(c.E), c.S)
     [] c.op = "FpInt" -> RLe(RAbs(c.E), c.S)
+    [] c.op = "FpGridNew" -> (XGridAcceptsI(c.pts) <=> XGridValid(c.pts))     \* the scan accepts exactly the valid grids
 =============================================================================
